@@ -4,7 +4,7 @@ from ..rules import calls_to, calls_where, order_ok, blocks_of, self_field_of_ca
 from ..facts import callee_path
 from . import c05, c06
 
-TEXT = ('Modulators are advanced first in each chunk (before clocks, listeners and the mixer), through exactly one Modulator::update call site driven by the key list of the modulator storage, whose keys are added with the insert and removed with the removal; Mapping::map clamps to [0,1], then eases, then interpolates; an unresolved modulator or listener yields None and the parameter keeps its last value; ids resolve through the generation-checked arena; the storage swaps the element out around its own update. Waveform formulas and tween values are not decided. The LFO advances and wraps its phase and sets value = offset + amplitude x waveform(phase); an unresolved tween target stays absent. The divisions / remainders of Mapping::map and the LFO have their domain proved (A.singular). Modulator handles write their commands on every path; a sound is never picked up before the modulator it is linked to; Duration parameters move towards shorter targets too.')
+TEXT = ("Modulators are advanced first in each chunk (before clocks, listeners and the mixer), through exactly one Modulator::update call site driven by the key list of the modulator storage, whose keys are added with the insert and removed with the removal; Mapping::map clamps to [0,1], then eases, then interpolates; an unresolved modulator or listener yields None and the parameter keeps its last value; ids resolve through the generation-checked arena; the storage swaps the element out around its own update. Waveform formulas and tween values are not decided. The LFO advances and wraps its phase and sets value = offset + amplitude x waveform(phase); an unresolved tween target stays absent. The divisions / remainders of Mapping::map and the LFO have their domain proved (A.singular). Modulator handles write their commands on every path; a sound is never picked up before the modulator it is linked to; Duration parameters move towards shorter targets too. Parameter::update has no 'nothing changed' shortcut for a linked parameter; no stale cached copies of parameter values.")
 TECHNIQUE = 'MIR ordering / single-site / operand-flow rules + interval evaluation of singular float operations'
 
 SR = 'backend::resources::SelfReferentialResourceStorage::<T>'
@@ -253,7 +253,11 @@ def lfo(F, R):
     va = [x for x in st if x[2] == '(*self).value']
     adv = [x for x in ph if parse_term(x[3])[0] == 'Add' and '(*self).phase' in x[3] and 'dt' in x[3] and '.frequency' in x[3] and 'Mul(' in x[3]]
     wrap = [x for x in ph if x[3] == 'Rem((*self).phase, 1.0)']
-    ok = len(ph) == 2 and len(adv) == 1 and len(wrap) == 1 and (adv[0][0], adv[0][1]) < (wrap[0][0], wrap[0][1]) \
+    def before(x, y):
+        # program order of two statements: in one block by index, otherwise by dominance (block numbers say nothing once a
+        # helper has been spliced in)
+        return (x[0] == y[0] and x[1] < y[1]) or (x[0] != y[0] and b.dominates(x[0], y[0]))
+    ok = len(ph) == 2 and len(adv) == 1 and len(wrap) == 1 and before(adv[0], wrap[0]) \
         and not b.in_loop(adv[0][0])
     R.check(ok, 'B.C17.lfo', 'phase', 'Lfo::update does not advance the phase by dt * frequency and wrap it with %% 1.0 (stores: %s)' % [x[3][:60] for x in ph],
             detail='phase += dt * frequency; phase %= 1.0', where=b.file)
@@ -267,7 +271,7 @@ def lfo(F, R):
                 n2, a2 = parse_term(mul[0])
                 okv = a2 is not None and len(a2) == 2 and any('.amplitude' in x for x in a2) \
                     and any('Waveform::value(' in x and '(*self).phase' in x for x in a2)
-        okv = okv and all(b.dominates(va[0][0], r) for r in b.return_blocks()) and bool(wrap) and (wrap[0][0], wrap[0][1]) < (va[0][0], va[0][1])
+        okv = okv and all(b.dominates(va[0][0], r) for r in b.return_blocks()) and bool(wrap) and before(wrap[0], va[0])
     vb = F.body('<modulator::lfo::Lfo as modulator::Modulator>::value')
     if R.check(vb is not None, 'B.C17.lfo', 'anchor:value', 'Lfo::value not found'):
         rets = [str(p.ret) for p in explore(vb) if p.end == 'return']
